@@ -12,6 +12,7 @@ import (
 	"context"
 	"encoding/binary"
 	"encoding/hex"
+	"errors"
 	"fmt"
 	"io"
 	"log/slog"
@@ -25,6 +26,7 @@ import (
 	"sync/atomic"
 	"time"
 
+	"github.com/KafScale/platform/pkg/acl"
 	"github.com/KafScale/platform/pkg/broker"
 	"github.com/KafScale/platform/pkg/metadata"
 	"github.com/KafScale/platform/pkg/protocol"
@@ -298,34 +300,178 @@ func verifC11Run(key, ver int16, corr int32, seed uint64, nameIdx int) (out stri
 	return fmt.Sprintf("reply hdr=%d corr=%d | path=%s decode=%s ver=%s len=%d", hdr, gotCorr, rep.path, dec, usedVer, len(p))
 }
 
+// verifC11Acks0Produce: a fire-and-forget Produce (acks=0) — the one request kind that must get NO reply, whatever happens to
+// its partitions.  Variants: 0 valid partition, 1 record set that is not a batch, 2 invalid topic name (cannot be auto-created),
+// 3 partition the topic does not have, 4 topic the ACL of config 1 denies, 5 one good + one bad partition, 6 reflectively
+// generated topics/partitions/records, 7 no topics at all.
+var verifC11Acks0Names = []string{"valid", "bad-batch", "invalid-topic", "foreign-partition", "acl-denied", "mixed", "generated", "empty"}
+
+const verifC11DeniedTopic = "verif-denied"
+
+func verifC11Acks0Produce(variant int, ver int16, rng *protocol.VerifRng) *kmsg.ProduceRequest {
+	var req *kmsg.ProduceRequest
+	if variant == 6 {
+		req = protocol.VerifFillRequest(protocol.APIKeyProduce, ver, rng).(*kmsg.ProduceRequest)
+		verifC11Fixup(req, rng)
+	} else {
+		req = kmsg.NewPtrProduceRequest()
+		req.SetVersion(ver)
+	}
+	req.Acks = 0
+	req.TimeoutMillis = 100
+	add := func(topic string, part int32, records []byte) {
+		t := kmsg.NewProduceRequestTopic()
+		t.Topic = topic
+		p := kmsg.NewProduceRequestTopicPartition()
+		p.Partition = part
+		p.Records = records
+		t.Partitions = append(t.Partitions, p)
+		req.Topics = append(req.Topics, t)
+	}
+	switch variant {
+	case 0:
+		add("orders", 0, verifC11Batch())
+	case 1:
+		add("orders", 0, []byte("definitely not a record batch"))
+	case 2:
+		add("..", 0, verifC11Batch())
+	case 3:
+		add("orders", 3, verifC11Batch())
+	case 4:
+		add(verifC11DeniedTopic, 0, verifC11Batch())
+	case 5:
+		add("orders", 0, verifC11Batch())
+		add("orders", 2, nil)
+		add(verifC11DeniedTopic, 0, []byte{1, 2, 3})
+	}
+	return req
+}
+
+// verifC11PipeHandler: the handler behind the pipelined connection.  cfg 0 = default; 1 = ACL enabled, principal of the harness's
+// client id may not produce to verifC11DeniedTopic (everything else allowed); 2 = S3 reported unavailable (every produce partition is
+// rejected with the backpressure code).
+func verifC11PipeHandler(cfg uint64, clientID string) *handler {
+	h := verifC11Handler()
+	switch cfg {
+	case 1:
+		h.authorizer = acl.NewAuthorizer(acl.Config{Enabled: true, DefaultPolicy: "allow", Principals: []acl.PrincipalRules{{
+			Name: clientID,
+			Deny: []acl.Rule{{Action: acl.ActionProduce, Resource: acl.ResourceTopic, Name: verifC11DeniedTopic}},
+		}}})
+	case 2:
+		for i := 0; i < 400; i++ {
+			h.s3Health.RecordOperation("upload", time.Millisecond, errors.New("verif: s3 down"))
+		}
+	}
+	return h
+}
+
+// verifC11Acks0Probe: generator self-check — the same produce variants with acks=1 through the handler of config cfg; prints how
+// many partitions each variant gets rejected (so the check can record that the "failing" acks=0 variants really fail).
+func verifC11Acks0Probe(cfg uint64) string {
+	const clientID = "verif-c11p"
+	h := verifC11PipeHandler(cfg, clientID)
+	rng := &protocol.VerifRng{S: 7}
+	var out []string
+	for variant, name := range verifC11Acks0Names {
+		req := verifC11Acks0Produce(variant, 7, rng)
+		req.Acks = 1
+		cid := clientID
+		header := &protocol.RequestHeader{APIKey: protocol.APIKeyProduce, APIVersion: 7, CorrelationID: 1, ClientID: &cid}
+		rejected, total := -1, 0
+		func() {
+			defer func() { _ = recover() }()
+			p, err := h.Handle(context.Background(), header, req)
+			if err != nil || len(p) < 4 {
+				return
+			}
+			resp := kmsg.NewPtrProduceResponse()
+			resp.SetVersion(7)
+			if resp.ReadFrom(p[4:]) != nil {
+				return
+			}
+			rejected = 0
+			for _, t := range resp.Topics {
+				for _, pp := range t.Partitions {
+					total++
+					if pp.ErrorCode != 0 {
+						rejected++
+					}
+				}
+			}
+		}()
+		out = append(out, fmt.Sprintf("%s=%d/%d", name, rejected, total))
+	}
+	return "probe " + strings.Join(out, " ")
+}
+
 // verifC11Pipe: ONE client connection into the real broker.Server connection loop; one generated request for every
 // advertised (key, version) is written back to back (pipelined) in the given chunking (0 = a single Write of all
-// frames, 1 = one Write per frame, other = seeded chunk sizes that ignore frame boundaries); the client must read
-// exactly one reply per request, in order, each carrying its request's correlation id and decoding at its version.
-func verifC11Pipe(seed uint64, mode uint64) string {
+// frames, 1 = one Write per frame, other = seeded chunk sizes that ignore frame boundaries), INTERLEAVED with acks=0 Produce
+// requests (all variants above, every advertised Produce version), which must get no reply.  The client must read exactly one
+// reply per reply-expecting request, in order: the k-th reply carries the correlation id of the k-th reply-expecting request
+// and decodes at that request's version; after the last one nothing more may arrive.
+func verifC11Pipe(seed uint64, mode uint64, cfg uint64) string {
 	type fr struct {
 		key, ver int16
 		corr     int32
+		expects  bool
 	}
+	const clientID = "verif-c11p"
 	rng := &protocol.VerifRng{S: seed}
 	var frames []fr
 	var stream []byte
 	var bounds []int
 	corr := int32(1000)
+	var prodVers []int16
+	for _, e := range generateApiVersions() {
+		if e.ApiKey == protocol.APIKeyProduce && e.MinVersion >= 0 {
+			for v := e.MinVersion; v <= e.MaxVersion; v++ {
+				prodVers = append(prodVers, v)
+			}
+		}
+	}
+	put := func(req kmsg.Request, expects bool) {
+		corr++
+		stream = append(stream, kmsg.NewRequestFormatter(kmsg.FormatterClientID(clientID)).AppendRequest(nil, req, corr)...)
+		bounds = append(bounds, len(stream))
+		frames = append(frames, fr{req.Key(), req.GetVersion(), corr, expects})
+	}
+	n0 := 0
+	acks0 := func() {
+		if len(prodVers) == 0 {
+			return
+		}
+		variant := n0 % len(verifC11Acks0Names)
+		ver := prodVers[(n0/len(verifC11Acks0Names)+n0)%len(prodVers)]
+		n0++
+		put(verifC11Acks0Produce(variant, ver, rng), false)
+	}
+	i := 0
 	for _, e := range generateApiVersions() {
 		if e.MinVersion < 0 {
 			continue
 		}
 		for v := e.MinVersion; v <= e.MaxVersion; v++ {
+			if i%2 == 0 || rng.Below(3) == 0 {
+				acks0()
+				if rng.Below(4) == 0 {
+					acks0()
+				}
+			}
+			i++
 			req := protocol.VerifFillRequest(e.ApiKey, v, rng)
 			verifC11Fixup(req, rng)
-			corr++
-			stream = append(stream, kmsg.NewRequestFormatter(kmsg.FormatterClientID("verif-c11p")).AppendRequest(nil, req, corr)...)
-			bounds = append(bounds, len(stream))
-			frames = append(frames, fr{e.ApiKey, v, corr})
+			put(req, true)
 		}
 	}
-	srv := &broker.Server{Handler: verifC11Handler()}
+	// the connection ends with a fire-and-forget produce followed by one more ordinary request
+	acks0()
+	last := kmsg.NewPtrApiVersionsRequest()
+	last.SetVersion(0)
+	put(last, true)
+
+	srv := &broker.Server{Handler: verifC11PipeHandler(cfg, clientID)}
 	client, server := net.Pipe()
 	go broker.VerifServeConn(srv, server)
 	go func() {
@@ -352,15 +498,38 @@ func verifC11Pipe(seed uint64, mode uint64) string {
 	}()
 	defer client.Close()
 	defer server.Close()
+	var reqs, got []string
+	expecting := 0
+	for _, f := range frames {
+		e := 0
+		if f.expects {
+			e = 1
+			expecting++
+		}
+		reqs = append(reqs, fmt.Sprintf("%d:%d:%d:%d", f.key, f.ver, f.corr, e))
+	}
+	k := 0
 	for i, f := range frames {
+		if !f.expects {
+			continue
+		}
 		_ = client.SetReadDeadline(time.Now().Add(3 * time.Second))
 		rf, err := protocol.ReadFrame(client)
 		if err != nil {
-			return fmt.Sprintf("pipe mismatch no-reply at=%d of=%d key=%d ver=%d (%v)", i, len(frames), f.key, f.ver, err)
+			return fmt.Sprintf("pipe mismatch no-reply at=%d of=%d reply=%d key=%d ver=%d (%v)", i, len(frames), k, f.key, f.ver, err)
 		}
 		p := rf.Payload
 		if len(p) < 4 || int32(binary.BigEndian.Uint32(p[:4])) != f.corr {
-			return fmt.Sprintf("pipe mismatch wrong-correlation-id at=%d of=%d key=%d ver=%d", i, len(frames), f.key, f.ver)
+			whose := "nobody"
+			if len(p) >= 4 {
+				c := int32(binary.BigEndian.Uint32(p[:4]))
+				for _, g := range frames {
+					if g.corr == c {
+						whose = fmt.Sprintf("request-key=%d,ver=%d,expects-reply=%v", g.key, g.ver, g.expects)
+					}
+				}
+			}
+			return fmt.Sprintf("pipe mismatch wrong-correlation-id at=%d of=%d reply=%d key=%d ver=%d reply-belongs-to=%s", i, len(frames), k, f.key, f.ver, whose)
 		}
 		resp := kmsg.ResponseForKey(f.key)
 		resp.SetVersion(f.ver)
@@ -369,10 +538,21 @@ func verifC11Pipe(seed uint64, mode uint64) string {
 			off = 5
 		}
 		if len(p) < off || resp.ReadFrom(p[off:]) != nil || !bytes.Equal(resp.AppendTo(nil), p[off:]) {
-			return fmt.Sprintf("pipe mismatch reply-not-decodable at=%d of=%d key=%d ver=%d", i, len(frames), f.key, f.ver)
+			return fmt.Sprintf("pipe mismatch reply-not-decodable at=%d of=%d reply=%d key=%d ver=%d", i, len(frames), k, f.key, f.ver)
 		}
+		got = append(got, fmt.Sprintf("%d:%d", f.corr, off))
+		k++
 	}
-	return fmt.Sprintf("pipe ok replies=%d bytes=%d", len(frames), len(stream))
+	// nothing may follow the reply to the last reply-expecting request (an acks=0 produce is never answered)
+	_ = client.SetReadDeadline(time.Now().Add(150 * time.Millisecond))
+	if rf, err := protocol.ReadFrame(client); err == nil {
+		c := int32(0)
+		if len(rf.Payload) >= 4 {
+			c = int32(binary.BigEndian.Uint32(rf.Payload[:4]))
+		}
+		return fmt.Sprintf("pipe mismatch unsolicited-reply at=%d of=%d reply=%d corr=%d", len(frames), len(frames), k, c)
+	}
+	return fmt.Sprintf("pipe ok replies=%d bytes=%d acks0=%d | reqs=%s | got=%s", expecting, len(stream), n0, strings.Join(reqs, ","), strings.Join(got, ","))
 }
 
 // verifC11Conc: GOMAXPROCS goroutines send valid generated requests of read-mostly APIs, at versions on both
@@ -540,7 +720,16 @@ func init() {
 	if len(os.Args) > 3 && os.Args[1] == "pipe" {
 		seed, _ := strconv.ParseUint(os.Args[2], 10, 64)
 		mode, _ := strconv.ParseUint(os.Args[3], 10, 64)
-		fmt.Println(verifC11Pipe(seed, mode))
+		cfg := uint64(0)
+		if len(os.Args) > 4 {
+			cfg, _ = strconv.ParseUint(os.Args[4], 10, 64)
+		}
+		fmt.Println(verifC11Pipe(seed, mode, cfg))
+		os.Exit(0)
+	}
+	if len(os.Args) > 2 && os.Args[1] == "acks0probe" {
+		cfg, _ := strconv.ParseUint(os.Args[2], 10, 64)
+		fmt.Println(verifC11Acks0Probe(cfg))
 		os.Exit(0)
 	}
 	if len(os.Args) > 3 && os.Args[1] == "conc" {
